@@ -257,6 +257,8 @@ def model_rules(rep):
 
 
 def witness_instances(rep, ctx, wanted, prop):
+    if hasattr(rep, 'home'):
+        return      # imported as a dependency: the type-level witnesses (!Send, !Sync, private field) concern only the home property
     ok, res, tail = witness.run_witnesses(ctx.repo)
     rep.rule('WIT', 'compile_fail doc-tests (expected error code checked on nightly) with compiling no_run twins')
     found = 0
@@ -328,7 +330,7 @@ def c10(ctx, rep):
     rep.rule('ARR-ZERO / ARR-MONO', 'Periodic, Sporadic: number_arrivals(0) = 0 and number_arrivals(delta + 1) >= number_arrivals(delta), proved by linear entailment over the guarded cases')
     rep.rule('ARR-CEIL', 'Periodic, Sporadic: for delta >= 1 number_arrivals(delta) is the least n with n * T >= delta + J (= ceil((delta + J) / T)): attained by the synchronous maximally jittered release sequence, and sub-additive by leastness')
     al = rules_sem.check_arrival_laws(rep, crate)
-    rep.floor('closed-form arrival laws proved', al, 6)
+    rep.floor('closed-form arrival laws proved', al, 8)
     rep.floor('reference summaries compared', n, 36)
     rep.floor('number_arrivals implementations', z, 10)
     rep.floor('clone_with_jitter implementations + window checks', j, 12)
@@ -639,6 +641,13 @@ DEPS = {
 }
 
 
+SAFETY_PROPS = ('C01', 'C02', 'C03', 'C04', 'C05')
+# the direction in which a model function may deviate without making any response-time bound smaller
+PESSIMISTIC_DIRECTION = {'number_arrivals': 'over', 'cost_of_jobs': 'over', 'service_needed': 'over', 'service_time': 'over',
+                         'divide_with_ceil': 'over', 'provided_service': 'under', 'least_wcet': 'under',
+                         'least_wcet_in_interval': 'under'}
+
+
 class DepReport:
     """recording interface of Report for a dependency's clause set: failures are forwarded to the depending report"""
 
@@ -663,6 +672,16 @@ class DepReport:
         self.instances.append(key)
         if key in self.known:
             return      # a recorded finding of the home property: reported (KNOWN-FINDING) by that property's check
+        if self.prop in SAFETY_PROPS and direction and direction.startswith('pessimistic-only'):
+            self.n_ok += 1      # the tight side of a two-sided law: cannot make a safety bound optimistic
+            return
+        if self.prop in SAFETY_PROPS and rule == 'REF' and direction and fn:
+            # a model function that provably only became more pessimistic cannot make a safety bound optimistic
+            name = fn.split('::')[-1]
+            want = PESSIMISTIC_DIRECTION.get(name)
+            if want and direction.startswith(want):
+                self.n_ok += 1
+                return
         self.violations.append(key)
         self.parent.bad(rule, key, where, fact, expected, direction=direction, fn=fn,
                         why=((why + ' ') if why else '') + f'[a clause of {self.home}, on which {self.prop} depends]')
